@@ -1,5 +1,32 @@
 """check.py configuration of C16."""
 
+Q_CLAIM = (
+    " Buffer handling (section Q, TrapMip.lean): trapping mirrors (Option, none = panic in the overflow-checking "
+    "profile) of MipmapCache::generate / generate_from_source (rayon and sequential) / _previous / _previous_two "
+    "(sizes[0], sizes[1], &sizes[1..], &sizes[2..], the len == 1 return, the decreasing-sizes debug_assert) and of "
+    "get_aligned_slice, Aligner::align (three branches, row copies), AlignedView::new / as_image_view, "
+    "AlignedBuffer::new / as_view, ResizeState::resize, resize, resize_into, resize_typed (zerocopy from_bytes: "
+    "aligned address, length a multiple of the pixel; Resizer::new / resize preconditions). mip_cache_trapfree: for "
+    "every allocator returning 4-aligned storage, with and without rayon, every SEQUENCE of generating calls "
+    "through one cache (buffers reused), every view with C20's invariant and non-empty size at ANY address and "
+    "pitch, all 12 colours, every filter, both alpha settings, every non-empty non-increasing size list - in "
+    "particular every mip chain started at any level with any number of further levels, also beyond 1x1 - with "
+    "pixel buffers up to 2^62-16 bytes: the mirror returns some, the emitted (size, source image) pairs are exactly "
+    "Mip.plan, every resize call meets the crate's preconditions, get_aligned_slice returns exactly the requested "
+    "length at a 4-aligned address for any previous buffer state (len <= capacity), no straight-alpha to_value takes "
+    "the reciprocal of zero. aligned_view_independent: the w*h*bpp bytes handed to the resizer are the image rows "
+    "back to back whatever the address, pitch, branch and previous buffer contents. The mutated code of seeds C16a "
+    "(split_at(2)), C16d (capacity() for len()) transcribed as variants returns none on the README inputs; C16f's "
+    "division is recipT 0 = none."
+)
+Q_NOTE = (
+    " Section Q additionally trusts: that TrapMip.lean transcribes the code (file:line cited); the ASSUMED contract "
+    "of the resize crate 0.8.9 (Resizer::new is Err iff a size is 0; resize is Err iff src.len() < w1*h1 or "
+    "dst.len() != w2*h2; neither panics; read from its lib.rs, not proved); Vec<u32> storage is 4-aligned and grows "
+    "by max(2*cap, n, 4) with a capacity-overflow panic beyond isize::MAX bytes; allocation FAILURE (incl. the "
+    "crate's try_reserve -> Err -> expect) is outside the model; the bound 2^62-16 bytes per pixel buffer."
+)
+
 CFG = {
     "claim": "Proof: in the model of Encoder::write_surface_impl / MipmapCache::generate (encoder.rs, after repair F13) and "
              "resize.rs, for every size, filter and alpha setting the look-ahead gathers exactly the declared levels "
@@ -12,13 +39,13 @@ CFG = {
              "colour (alpha > 0; all-zero pixels when straight alpha is on and alpha = 0), full opacity is preserved "
              "exactly, channels are functions of their own channel when straight-alpha handling is off, and a "
              "straight-alpha colour is the convex combination with weights w_i a_i / sum w_j a_j. Tied to the real "
-             "Encoder + Decoder over lossless targets of each precision in release and overflow/debug-assertion builds.",
+             "Encoder + Decoder over lossless targets of each precision in release and overflow/debug-assertion builds." + Q_CLAIM,
     "note": "Trusted: Lean kernel + propext/Classical.choice/Quot.sound; models Mip.lean, Encoder.lean, Iter.lean, "
             "Layout.lean; ASSUMED (validated by the oracle on every run, not proved): the resize crate's Point, Box(1.0) "
             "and Triangle kernels are convex (weights >= 0, sum 1) and all five are normalised; binary32 rounding inside "
             "the resizer is not modelled (theorems are over Rat; the oracle allows the property's one output unit for "
             "integers and a relative 2^-13 for f32 data, see notes/C16.md); Aligner::align is modelled as the identity on "
-            "pixel values and checked by comparing aligned / offset / strided inputs byte for byte.",
+            "pixel values and checked by comparing aligned / offset / strided inputs byte for byte (section Q proves the byte identity in the model: aligned_view_independent)." + Q_NOTE,
     "profiles": ["release", "checked"],
     "level": "proof",
     "rule": "cases = (A2) very long rows / columns (997x1 ... 4096x1, 2047x2) with boundary constants and opaque content for "
